@@ -51,6 +51,7 @@ type m4Tables struct {
 	co       []uint64
 	co64     bool
 	noCo     bool
+	spareCo  int // with stco present: also a co64 box (ignored by the decoder) holding this many fewer entries (0: none)
 	extra    int // 0 none, 1 video track first, 2 other meta track first, 3 both
 }
 
@@ -89,6 +90,18 @@ func (t *m4Tables) trak(handler, name string, meta bool) []byte {
 					co = append(co, u32(uint32(o))...)
 				}
 				boxes = append(boxes, box("stco", co))
+				if t.spareCo > 0 {
+					// some muxers leave both tables behind; stco is the one that counts
+					n := len(t.co) - t.spareCo
+					if n < 0 {
+						n = 0
+					}
+					co2 := u32(0, uint32(n))
+					for _, o := range t.co[:n] {
+						co2 = binary.BigEndian.AppendUint64(co2, o)
+					}
+					boxes = append(boxes, box("co64", co2))
+				}
 			}
 		}
 		stbl = box("stbl", boxes...)
@@ -378,6 +391,9 @@ func m4Valid(r *rng, s *sink) (*m4Tables, []byte) {
 		}
 	}
 	t.co64 = r.chance(1, 3)
+	if !t.co64 && r.chance(1, 6) {
+		t.spareCo = 1 + r.intn(3)
+	}
 	for _, st := range chunkStart {
 		t.co = append(t.co, uint64(m4PayloadBase+st))
 	}
